@@ -137,6 +137,7 @@ func extra() {
 	f13()
 	t7()
 	f14()
+	t8()
 }
 
 // F7: per clone function of workflow/utils/clone/clone.go, the fields that are always copied (keys of
